@@ -46,6 +46,9 @@ class ObjModel(object):
                 self.st.dom[s] = tuple(x for x in self.space.dom[s] if x in vals)
         pv = self.cls.methods["parse_vector"]
         self.ev.models[pv.node] = self._parse_model
+        self.v4 = {}
+        if v == 4:
+            self._setup_v4()
         self.self_ref = None
         self.init_events_end = 0
         self.alive = True
@@ -87,6 +90,167 @@ class ObjModel(object):
         except Dead:
             self.alive = False
         self.init_events_end = len(self.ev.events)
+
+    # ---- v4: assume/guarantee summaries ----------------------------------------------------
+    def _setup_v4(self):
+        """compute_base_score is analysed modularly:
+        * m(K) is inlined once per literal K; its table over the raw metric slots becomes the
+          definition of a derived slot eff:K (checked against the specification by C02.m);
+        * macroVector() is inlined once over the eff slots; its six characters become derived
+          digit slots d1..d6 with their joint feasibility constraint (checked by C02.eq);
+        * extract_value_metric(K, <element of the max-vector search>) is the slot mv:K;
+        * the max-vector loops are summarised by one body execution (havoc)."""
+        cls = self.cls
+        for name in ("m", "macroVector", "extract_value_metric", "compute_base_score"):
+            if name not in cls.methods:
+                raise AnalysisError("E5.model", "CVSS4.%s vanished" % name, cls.node, self.module)
+        self.v4 = {"eff": {}, "eff_def": {}, "digits": None, "digit_defs": None, "mv_slots": {}}
+        self.ev.models[cls.methods["m"].node] = self._m_model
+        self.ev.models[cls.methods["macroVector"].node] = self._mv_model
+        self.ev.models[cls.methods["extract_value_metric"].node] = self._extract_model
+        cbs = cls.methods["compute_base_score"].node
+        self.ev.havoc_allowed = lambda func, loop: func is not None and func.node is cbs
+        # values each metric takes in the composed highest-severity vectors (own parse of the table)
+        mc = self.ctx.ce.table("constants4", "MAX_COMPOSED", "E5.model")
+        vals = {}
+
+        def walk(x):
+            if isinstance(x, dict):
+                for y in x.values():
+                    walk(y)
+            elif isinstance(x, (list, tuple)):
+                for y in x:
+                    walk(y)
+            elif isinstance(x, str):
+                for fld in x.split("/"):
+                    if fld:
+                        k, _, val = fld.partition(":")
+                        vals.setdefault(k, [])
+                        if val not in vals[k]:
+                            vals[k].append(val)
+
+        walk(mc)
+        self.v4["maxvec_values"] = vals
+
+    def _real(self, name, st, args, node, module):
+        f = self.cls.methods[name]
+        model = self.ev.models.pop(f.node)
+        try:
+            return self.ev.inline(st, f, None, list(args), {}, node, module)
+        finally:
+            self.ev.models[f.node] = model
+
+    def _m_model(self, ev, st, args, kwargs, node, module):
+        recv, key = args[0], args[1] if len(args) > 1 else kwargs.get("metric")
+        if not isinstance(key, Const):
+            raise AnalysisError("E5.model", "m() called with a non-literal metric", node, module)
+        k = key.v
+        real = self._real("m", st, args, node, module)
+        real = ev.simp(st, real)
+        self.v4.setdefault("real_m", {})[k] = real
+        if not isinstance(real, Fin):
+            return real
+        sk = real.sortkey()
+        for name, d in self.v4["eff_def"].items():
+            if d.sortkey() == sk:
+                self.v4["eff"][k] = name
+                return Fin((name,), dict(((x,), x) for x in self.space.dom[name]))
+        rng = []
+        for kk in sorted(real.table, key=lambda r: tuple(T.ckey(x) for x in r)):
+            x = real.table[kk]
+            if x not in rng:
+                rng.append(x)
+        # order the range like the metric's accepted values where possible
+        order = [x for x in (self.accepted.get(k) or []) if x in rng]
+        for b in (self.accepted.get(k[1:] if k.startswith("M") else "M" + k) or []):
+            if b in rng and b not in order:
+                order.append(b)
+        order += [x for x in rng if x not in order]
+        name = "eff:" + k
+        for other, d in self.v4["eff_def"].items():
+            if set(d.slots) & set(real.slots):
+                # two different effective-value functions over common inputs: not abstracted
+                # (C02.m reports the disagreement); the raw table is used as is
+                self.v4.setdefault("conflicts", []).append((other, k))
+                return real
+        self.space.add(name, tuple(order))
+        self.space.defs[name] = real
+        self.v4["eff_def"][name] = real
+        self.v4["eff"][k] = name
+        return Fin((name,), dict(((x,), x) for x in self.space.dom[name]))
+
+    def _mv_model(self, ev, st, args, kwargs, node, module):
+        real = self._real("macroVector", st, args, node, module)
+        if self.v4["digits"] is not None:
+            return self.v4["digits"]
+        digits = []
+        from .interp_expr import piece_lengths
+
+        pieces = list(real.args) if isinstance(real, T.App) and real.op == "cat" else [real]
+        total = 0
+        for p in pieces:
+            ls = piece_lengths(st, p)
+            if ls is None or len(ls) != 1:
+                raise AnalysisError(
+                    "C02.eq.total",
+                    "macroVector() is not a fixed-length digit string (a classifier chain may fall through to its "
+                    "initial value for some valuation): piece %r" % (p,),
+                    node,
+                    module,
+                )
+            total += list(ls)[0]
+        self.v4["mv_len"] = total
+        for i in range(total):
+            if isinstance(real, T.App):
+                d = ev.cat_index(st, real, i, node, module)
+            else:
+                d = st.folder().fold(lambda s_, i=i: s_[i], [real])
+            digits.append(ev.simp(st, d))
+        self.v4["digit_defs"] = digits
+        names = []
+        for i, d in enumerate(digits):
+            name = "d%d" % (i + 1)
+            if isinstance(d, Const):
+                rng = [d.v]
+            else:
+                rng = sorted(set(d.table.values()))
+            self.space.add(name, tuple(rng))
+            self.space.defs[name] = d
+            names.append(name)
+        # joint feasibility of digits that share inputs
+        fo = st.folder()
+        for i in range(len(digits)):
+            for j in range(i + 1, len(digits)):
+                a, b = digits[i], digits[j]
+                if isinstance(a, Fin) and isinstance(b, Fin) and set(a.slots) & set(b.slots):
+                    pairs = fo.fold(lambda x, y: (x, y), [a, b])
+                    allowed = set(pairs.table.values()) if isinstance(pairs, Fin) else {pairs.v}
+                    self.space.constrain((names[i], names[j]), allowed)
+                    self.v4.setdefault("joint", {})[(i, j)] = allowed
+        out = ev.cat(st, [Fin((n,), dict(((x,), x) for x in self.space.dom[n])) for n in names])
+        if not (isinstance(out, T.App) and out.op == "cat"):
+            out = T.App("cat", [out])
+        # keep the pieces separate so that indexing works digit by digit
+        out = T.App("cat", [Fin((n,), dict(((x,), x) for x in self.space.dom[n])) for n in names])
+        self.v4["digits"] = out
+        return out
+
+    def _extract_model(self, ev, st, args, kwargs, node, module):
+        recv, key, string = args[0], args[1], args[2]
+        if isinstance(string, Const):
+            return self._real("extract_value_metric", st, args, node, module)
+        if not (isinstance(key, Const) and isinstance(string, Opaque)):
+            raise AnalysisError("E5.model", "extract_value_metric on %r / %r" % (key, string), node, module)
+        k = key.v
+        vals = self.v4["maxvec_values"].get(k)
+        if not vals:
+            ev.hazard(st, "ValueError", node, module, T.TRUE, "metric %r does not occur in the highest-severity vectors" % k)
+            raise Dead()
+        name = "mv:" + k
+        if name not in self.space.dom:
+            self.space.add(name, tuple(vals))
+        self.v4["mv_slots"][k] = name
+        return Fin((name,), dict(((x,), x) for x in self.space.dom[name]))
 
     # convenience --------------------------------------------------------------------------
     def attr(self, name):
